@@ -36,7 +36,8 @@ G(s, sep, trimmed, na) == [s |-> s, sep |-> sep, trimmed |-> trimmed, na |-> na]
 Pl(s) == G(s, FALSE, s, FALSE)
 
 E200 == "éééééééééééééééééééééééééééééééééééééééééééééééééééééééééééééééééééééééééééééééééééééééééééééééééééééééééééééééééééééééééééééééééééééééééééééééééééééééééééééééééééééééééééééééééééééééééééééééééééééé"
-Inject == "1.0\nzz|00000000000000000000000000000000|00000000000000000000000000000000||666|forged|"
+\* a complete forged row: the first line keeps 7 fields, the second one is a row for a region "zz"
+Inject == "1.0|\nzz|00000000000000000000000000000000|00000000000000000000000000000000||666|forged"
 
 StrTable == {
   Pl("1.14.2.42597"), Pl("11.0.7.58187"), Pl("2.5.4.44833"), Pl(" 1.0"), Pl("#1.0"), Pl("1.0\tx"),
